@@ -62,7 +62,11 @@ func (o *UntypedRequestBinder) Bind(request *http.Request, routeParams RoutePara
 		o.debugLogf("binding parameter %s for %s %s", fieldName, request.Method, request.URL.EscapedPath())
 		var target reflect.Value
 		if !isMap {
-			binder.Name = fieldName
+			// the parameter binders are shared by every request bound with this binder: the one that names the
+			// field of this target is a copy
+			named := *binder
+			named.Name = fieldName
+			binder = &named
 			target = val.FieldByName(fieldName)
 		}
 
